@@ -219,3 +219,25 @@ func vfH_C14_entropy_aes() {
 	vfReach("done")
 	vfAssert("entropy/read-reports-length", vfAnd(err == nil, n == min(len(p), 16)))
 }
+
+// the process-wide counters are shared by every session and read by monitoring code while
+// traffic flows: their reader/reset API touches them with atomics only
+func vfH_C14_snmp_methods() {
+	vfGuardAtomic("snmp", DefaultSnmp)
+	vfReach("guarded")
+	vfMonitorOn()
+	switch vfPick("entry", 0, 2) {
+	case 0:
+		c := DefaultSnmp.Copy()
+		vfMonitorOff()
+		vfAssert("snmp/copy-is-a-new-object", c != DefaultSnmp)
+	case 1:
+		DefaultSnmp.Reset()
+	case 2:
+		sl := DefaultSnmp.ToSlice()
+		vfMonitorOff()
+		vfAssert("snmp/slice-matches-header", len(sl) == len(DefaultSnmp.Header()))
+	}
+	vfMonitorOff()
+	vfReach("done")
+}
